@@ -107,6 +107,61 @@ def _cargo(ws, target, features, log):
     return p.returncode, time.time() - t0, p.stdout
 
 
+def _autofix(ws, target, features):
+    """Applies rustc-diagnostic driven fix-ups to the SHADOW copy (never to /repo):
+      E0308 expected `SymInt`, found integer      ->  SymInt::lit(<literal>)
+      E0605 non-primitive cast `SymInt` as T      ->  (<expr>).cast_conc() as T   (refuses at run time if symbolic)
+      E0605 non-primitive cast  T as `SymInt`     ->  SymInt::from(<expr>)
+    returns the number of edits"""
+    cmd = ["cargo", "build", "--release", "-p", "ddo", "--offline", "--message-format=json"]
+    env = _env()
+    env["CARGO_TARGET_DIR"] = target
+    p = subprocess.run(cmd, cwd=ws, env=env, stdout=subprocess.PIPE, stderr=subprocess.DEVNULL, text=True)
+    edits = {}
+    for line in p.stdout.splitlines():
+        try:
+            j = json.loads(line)
+        except Exception:
+            continue
+        m = j.get("message") or {}
+        if j.get("reason") != "compiler-message" or m.get("level") != "error":
+            continue
+        code = (m.get("code") or {}).get("code")
+        spans = [s for s in m.get("spans", []) if s.get("is_primary")]
+        if not spans:
+            continue
+        sp = spans[0]
+        text = m.get("message", "") + " " + (sp.get("label") or "")
+        f = os.path.join(ws, sp["file_name"]) if not os.path.isabs(sp["file_name"]) else sp["file_name"]
+        if os.path.join(ws, "ddo") not in os.path.abspath(f):
+            continue
+        src = open(f, encoding="utf-8").read().encode("utf-8")
+        frag = src[sp["byte_start"]:sp["byte_end"]].decode("utf-8")
+        new = None
+        if code == "E0308" and "expected `SymInt`" in text and ("found integer" in text or "found `{integer}`" in text) and frag.strip().lstrip("-").replace("_", "").isdigit():
+            new = "SymInt::lit(%s)" % frag
+        elif code == "E0605" and "`SymInt` as `" in text and " as " in frag:
+            e, t = frag.rsplit(" as ", 1)
+            new = "(%s).cast_conc() as %s" % (e, t)
+        elif code == "E0605" and "as `SymInt`" in text and " as " in frag:
+            e, t = frag.rsplit(" as ", 1)
+            new = "SymInt::from(%s)" % e
+        if new is not None:
+            edits.setdefault(f, {})[(sp["byte_start"], sp["byte_end"])] = new
+    n = 0
+    for f, es in edits.items():
+        src = open(f, encoding="utf-8").read().encode("utf-8")
+        last = None
+        for (a, b), new in sorted(es.items(), reverse=True):
+            if last is not None and b > last:
+                continue  # overlapping: next round
+            src = src[:a] + new.encode("utf-8") + src[b:]
+            last = a
+            n += 1
+        open(f, "w", encoding="utf-8").write(src.decode("utf-8"))
+    return n
+
+
 def _prune(dirpath, keep=6):
     if not os.path.isdir(dirpath):
         return
@@ -158,6 +213,18 @@ def ensure_symx(sched=False):
             if _du_gb(target) > 4.0:
                 shutil.rmtree(target, ignore_errors=True)
             rc, secs, out = _cargo(bdir, target, "symx,sched" if sched else "symx", os.path.join(bdir, "build.log"))
+            fixes = 0
+            rounds = 0
+            while rc != 0 and rounds < 4:
+                # mechanical, semantics-preserving fix-ups driven by rustc's own diagnostics (edited trees only)
+                n = _autofix(bdir, target, "symx,sched" if sched else "symx")
+                rounds += 1
+                if n == 0:
+                    break
+                fixes += n
+                rc, secs2, out = _cargo(bdir, target, "symx,sched" if sched else "symx", os.path.join(bdir, "build.log"))
+                secs += secs2
+            info["autofix_edits"] = fixes
             if rc != 0:
                 errs = "\n".join(l for l in out.splitlines() if l.startswith("error") or l.strip().startswith("-->"))[:3000]
                 raise BuildError("shadow crate does not compile (encoding not regenerable):\n" + errs)
